@@ -7,7 +7,9 @@
 
    An alert is (fingerprint, alert name, StartsAt, EndsAt, UpdatedAt, Timeout); fingerprints are injective in the
    label set (DESIGN I9) so the name is a function of the fingerprint (hypothesis `names_ok` of the theorems).
-   The zero time is 0; real instants are > 0.  Go map iteration in gcLimitBuckets / gcAlerts only deletes entries
+   Instants are exact Z nanoseconds since the Unix epoch (no int64 wrap: far-future ends such as 9999-12-31 and
+   pre-1970 ones are plain numbers); Go's zero time.Time (0001-01-01T00:00:00Z) is `zero_time`, below every instant
+   in use.   Go map iteration in gcLimitBuckets / gcAlerts only deletes entries
    by a per-entry test, so the result is order-independent (a gmap filter).
    `stale` is a parameter so that the same definitions give the repaired code (Bucket.is_stale) and the code at
    the pinned commit (Bucket.is_stale_last_slot, for the refutation witness). *)
@@ -18,7 +20,8 @@ Record alert := mkAlert {
 Global Instance alert_eq_dec : EqDecision alert. Proof. solve_decision. Defined.
 
 (* model.Alert.ResolvedAt(ts): !EndsAt.IsZero() && !EndsAt.After(ts) *)
-Definition resolved (a : alert) (now : Z) : bool := negb (a_ends a =? 0) && (a_ends a <=? now).
+Definition zero_time : Z := -62135596800000000000.
+Definition resolved (a : alert) (now : Z) : bool := negb (a_ends a =? zero_time) && (a_ends a <=? now).
 
 (* alert.Alert.Merge: o is made the younger one; earliest start; end-time rules *)
 Definition merge_ordered (a o : alert) (now : Z) : alert :=
